@@ -188,6 +188,12 @@ def importShapeB (cs : List ANode) : Bool :=
   (importFlattened cs).all (fun x => isImportItem x || isCommentKind x.kind || isIgnorable x) &&
   (sortedB importSortKey ((importFlattened cs).filter isImportItem) || !importSortable (importFlattened cs))
 
+/-- `break` / `continue`: one keyword leaf. -/
+def loopShapeB (cs : List ANode) : Bool :=
+  match cs with
+  | [.leaf kk _ _] => kk == .break_ || kk == .continue_
+  | _ => false
+
 def Kind.isImportPart : Kind → Bool
   | .importItemPath | .renamedImportItem | .importItems => true
   | _ => false
@@ -199,10 +205,10 @@ def Kind.isMathFlow : Kind → Bool
 mutual
 /-- The covered fragment (decidable), for contexts that are not in math mode. -/
 def inFrag : ANode → Bool
-  | .leaf k t a => ANode.tokensAreLeaves (.leaf k t a) && (!k.isExpr || k.isFragLeaf || (k == .parbreak && !a.disabled) || k == .none_ || k == .auto_) && (!k.isInnerKind || ((k == .markup || k == .code) && t == ""))
+  | .leaf k t a => ANode.tokensAreLeaves (.leaf k t a) && (!k.isExpr || k.isFragLeaf || (k == .parbreak && !a.disabled) || k == .none_ || k == .auto_) && (!k.isInnerKind || ((k == .markup || k == .code || k == .importItems) && t == ""))
   | .inner k cs _ =>
     ((k.isFragFlow || k.isFragElem || (k.isFragList && listChildrenOK k cs) || k == .code ||
-      ((k.isFragWrap || k == .markup || k == .args || k == .funcCall || k == .params || k == .destructuring || k == .raw || k == .ref) && listChildrenOK k cs) || k.isFragItem || k == .setRule || k == .closure || k == .forLoop || (k == .binary && binChildrenOK cs) || (k == .fieldAccess && dotChildrenOK cs) || k.isImportPart || (k == .moduleImport && importShapeB cs)) || (k == .equation && eqShapeB cs)) &&
+      ((k.isFragWrap || k == .markup || k == .args || k == .funcCall || k == .params || k == .destructuring || k == .raw || k == .ref) && listChildrenOK k cs) || k.isFragItem || k == .setRule || k == .closure || k == .forLoop || (k == .binary && binChildrenOK cs) || (k == .fieldAccess && dotChildrenOK cs) || k.isImportPart || (k == .moduleImport && importShapeB cs) || ((k == .loopBreak || k == .loopContinue) && loopShapeB cs)) || (k == .equation && eqShapeB cs)) &&
       (if k == .equation then inFragEq cs else inFragL cs)
 def inFragL : List ANode → Bool
   | [] => true
@@ -213,7 +219,7 @@ def inFragEq : List ANode → Bool
   | c :: cs => (if c.kind == .math then inFragM c else inFrag c) && inFragEq cs
 /-- The covered fragment for math mode. -/
 def inFragM : ANode → Bool
-  | .leaf k t a => ANode.tokensAreLeaves (.leaf k t a) && (!k.isExpr || k.isFragLeaf || (k == .parbreak && !a.disabled) || k == .none_ || k == .auto_) && (!k.isInnerKind || ((k == .markup || k == .code) && t == ""))
+  | .leaf k t a => ANode.tokensAreLeaves (.leaf k t a) && (!k.isExpr || k.isFragLeaf || (k == .parbreak && !a.disabled) || k == .none_ || k == .auto_) && (!k.isInnerKind || ((k == .markup || k == .code || k == .importItems) && t == ""))
   | .inner k cs _ =>
     if k == .funcCall then mathCallShapeB cs && inFragMCallL cs else
     (k.isMathFlow || k == .math || (k == .mathPrimes && cs.all (fun c => c.kind == .prime)) ||
@@ -252,13 +258,13 @@ theorem inFrag_inner_eq (cs : List ANode) (a : Attrs) :
 theorem inFrag_inner_ne (k : Kind) (cs : List ANode) (a : Attrs) (hk : k ≠ .equation) :
     inFrag (.inner k cs a) =
       ((k.isFragFlow || k.isFragElem || (k.isFragList && listChildrenOK k cs) || k == .code ||
-      ((k.isFragWrap || k == .markup || k == .args || k == .funcCall || k == .params || k == .destructuring || k == .raw || k == .ref) && listChildrenOK k cs) || k.isFragItem || k == .setRule || k == .closure || k == .forLoop || (k == .binary && binChildrenOK cs) || (k == .fieldAccess && dotChildrenOK cs) || k.isImportPart || (k == .moduleImport && importShapeB cs)) && inFragL cs) := by
+      ((k.isFragWrap || k == .markup || k == .args || k == .funcCall || k == .params || k == .destructuring || k == .raw || k == .ref) && listChildrenOK k cs) || k.isFragItem || k == .setRule || k == .closure || k == .forLoop || (k == .binary && binChildrenOK cs) || (k == .fieldAccess && dotChildrenOK cs) || k.isImportPart || (k == .moduleImport && importShapeB cs) || ((k == .loopBreak || k == .loopContinue) && loopShapeB cs)) && inFragL cs) := by
   have : (k == Kind.equation) = false := by simpa using hk
   simp only [inFrag, this, Bool.false_and, Bool.or_false, Bool.false_eq_true, ↓reduceIte]
 
 theorem fragKind_inner (k : Kind) (cs : List ANode)
     (h : (k.isFragFlow || k.isFragElem || (k.isFragList && listChildrenOK k cs) || k == .code ||
-      ((k.isFragWrap || k == .markup || k == .args || k == .funcCall || k == .params || k == .destructuring || k == .raw || k == .ref) && listChildrenOK k cs) || k.isFragItem || k == .setRule || k == .closure || k == .forLoop || (k == .binary && binChildrenOK cs) || (k == .fieldAccess && dotChildrenOK cs) || k.isImportPart || (k == .moduleImport && importShapeB cs)) = true) : k.isInnerKind = true := by
+      ((k.isFragWrap || k == .markup || k == .args || k == .funcCall || k == .params || k == .destructuring || k == .raw || k == .ref) && listChildrenOK k cs) || k.isFragItem || k == .setRule || k == .closure || k == .forLoop || (k == .binary && binChildrenOK cs) || (k == .fieldAccess && dotChildrenOK cs) || k.isImportPart || (k == .moduleImport && importShapeB cs) || ((k == .loopBreak || k == .loopContinue) && loopShapeB cs)) = true) : k.isInnerKind = true := by
   cases k <;> simp_all [Kind.isFragFlow, Kind.isFragElem, Kind.isFragList, Kind.isFragWrap, Kind.isFragItem, Kind.isImportPart, Kind.isInnerKind]
 
 mutual
@@ -1062,6 +1068,38 @@ theorem convExpr_frag (e : Env) (r : Rec) (hr : RecOK r Q) (hrM : RecOKM r QM) (
         · cases m with
           | inner _ _ _ => simp at hch
           | leaf km tm am => cases km <;> simp at hch
+      by_cases hloopk : k = .loopBreak ∨ k = .loopContinue
+      · have hsh : loopShapeB cs = true := by
+          have h1 := hq.1
+          rcases hloopk with rfl | rfl <;>
+            (simp [Kind.isFragFlow, Kind.isFragElem, Kind.isFragList, Kind.isFragWrap, Kind.isFragItem, Kind.isImportPart, listChildrenOK] at h1
+             exact h1)
+        have hv : isVerbatimNode k cs a = false := by
+          rcases hloopk with rfl | rfl <;> simp [isVerbatimNode, hd']
+        rw [specAll_inner k cs a hv (by rcases hloopk with rfl | rfl <;> decide)]
+        rcases cs with _ | ⟨c0, _ | ⟨c1, rest⟩⟩ <;> simp only [loopShapeB, Bool.false_eq_true] at hsh
+        cases c0 with
+        | inner _ _ _ => simp [loopShapeB] at hsh
+        | leaf kk tt aa =>
+          simp only [loopShapeB, Bool.or_eq_true, beq_iff_eq] at hsh
+          have hplain : kk.isPlainToken = true := by rcases hsh with rfl | rfl <;> rfl
+          have hspec : specAllL [ANode.leaf kk tt aa] = tagS .syn tt := by
+            rw [specAllL_cons, specAllL_nil, Streams.app_empty, specAll_plain_leaf kk tt aa hplain, tagS_syn_eq_tok]
+          rw [hspec]
+          have hsyn : ∀ s : String, Post (e.synNode (.inner k [.leaf kk tt aa] a) s) (fun d => Carries d (tagS .syn tt)) := by
+            intro s
+            unfold Env.synNode
+            split
+            · rename_i ht
+              have ht' : tt = s := by
+                have : (ANode.inner k [ANode.leaf kk tt aa] a).intoText = tt := by
+                  simp [ANode.intoText, ANode.intoTextL]
+                rw [this] at ht; simpa using ht
+              rw [ht']; exact Post.pure (Carries.mkText e.wd .syn s)
+            · exact Post.rejected _
+          rcases hloopk with rfl | rfl
+          · exact hsyn "break"
+          · exact hsyn "continue"
       by_cases himpk : k = .moduleImport
       · subst himpk
         have hsh : importShapeB cs = true := by
@@ -1076,7 +1114,14 @@ theorem convExpr_frag (e : Env) (r : Rec) (hr : RecOK r Q) (hrM : RecOKM r QM) (
           cases c with
           | leaf k' t' a' =>
             simp only [ANode.kind] at hk; subst hk
-            simp [Q, inFrag, Kind.isInnerKind] at hcq
+            have ht : t' = "" := by
+              have := hcq
+              simp [Q, inFrag, Kind.isInnerKind] at this
+              exact this.2
+            subst ht
+            show specAll (.leaf .importItems "" a') = specAllL []
+            rw [specAllL_nil]
+            apply Streams.ext' <;> simp [specAll, specToks, specCmts, specProse, specLit, specVerb, isCommentKind, Pretty.keepOf]
           | inner k' ics ia =>
             simp only [ANode.kind] at hk; subst hk
             exact specAll_inner .importItems ics ia
